@@ -309,8 +309,8 @@ impl Property for C18 {
     }
     fn runs(&self, tier: Tier) -> u64 {
         match tier {
-            Tier::Quick => 1200,
-            Tier::Thorough => 20000,
+            Tier::Quick => 1500,
+            Tier::Thorough => 30000,
         }
     }
     fn rule(&self) -> &'static str {
